@@ -48,7 +48,7 @@ Inductive wctl :=
 | WRecv                                  (* at `for a = range in` / top of a generator loop *)
 | WCall (a : val) (todo : list act)      (* inside the (gated) user function applied to a  *)
 | WRun (eof : bool) (todo : list act)    (* executing the plan of an element / the code after the loop *)
-| WSleep (until : N) (sel : bool) (todo : list act)
+| WSleep (until : N) (sel : bool) (eof : bool) (todo : list act)
 | WDone.
 
 (* ---------- a stage ---------- *)
@@ -194,13 +194,13 @@ Definition step_worker (c : cfg) (s : state) (w : nat) (choice : bool) : option 
         end
       else if can_done then Some (finish c s w (ATok k :: rest))
       else None
-  | WRun eof (ASleep d :: rest) => Some (set_w s w (with_ctl x (WSleep (now s + d) false rest)))
-  | WRun eof (ASleepSel d :: rest) => Some (set_w s w (with_ctl x (WSleep (now s + d) true rest)))
+  | WRun eof (ASleep d :: rest) => Some (set_w s w (with_ctl x (WSleep (now s + d) false eof rest)))
+  | WRun eof (ASleepSel d :: rest) => Some (set_w s w (with_ctl x (WSleep (now s + d) true eof rest)))
   | WRun eof (AStop :: rest) => Some (finish c s w [])
-  | WSleep until sel rest =>
+  | WSleep until sel eof rest =>
       let can_wake := N.leb until (now s) in
       let can_done := sel && cancelled s in
-      if can_wake && (negb can_done || choice) then Some (set_w s w (with_ctl x (WRun false rest)))
+      if can_wake && (negb can_done || choice) then Some (set_w s w (with_ctl x (WRun eof rest)))
       else if can_done then Some (finish c s w rest)
       else None
   | WDone => None
@@ -230,8 +230,8 @@ Fixpoint min_wake (s : state) (n : nat) : option N :=
   | 0 => None
   | S m =>
       match wc (ws s m), min_wake s m with
-      | WSleep u _ _, Some t => Some (N.min u t)
-      | WSleep u _ _, None => Some u
+      | WSleep u _ _ _, Some t => Some (N.min u t)
+      | WSleep u _ _ _, None => Some u
       | _, r => r
       end
   end.
@@ -248,8 +248,7 @@ Inductive ev :=
 | ECloser                        (* the wg.Wait() goroutine closes the outputs *)
 | EAdvance (t : N).              (* the clock moves to t *)
 
-Definition step (c : cfg) (s : state) (e : ev) : option state :=
-  if panicked s then None else
+Definition step_ok (c : cfg) (s : state) (e : ev) : option state :=
   match e with
   | ESent i x =>
       if negb (Nat.ltb i (nins c)) then None
@@ -308,6 +307,10 @@ Definition step (c : cfg) (s : state) (e : ev) : option state :=
       else None
   end.
 
+(* a panicked program has crashed: nothing happens any more *)
+Definition step (c : cfg) (s : state) (e : ev) : option state :=
+  if panicked s then None else step_ok c s e.
+
 Definition exec_from (c : cfg) (s : state) (tr : list ev) : option state :=
   fold_left (fun o e => match o with Some s => step c s e | None => None end) tr (Some s).
 Definition exec (c : cfg) (tr : list ev) : option state := exec_from c (init c) tr.
@@ -334,7 +337,7 @@ Definition mine (w : nat) (l : list (nat * val)) : list val :=
 
 Definition pend (k : nat) (ctl : wctl) : list val :=
   match ctl with
-  | WCall _ todo | WRun _ todo | WSleep _ _ todo => emits k todo
+  | WCall _ todo | WRun _ todo | WSleep _ _ _ todo => emits k todo
   | _ => []
   end.
 
